@@ -174,6 +174,7 @@ type RespSpec struct {
 	HdrRoles  []string // issuer chain header: certificate roles (default signer, root)
 	HdrMode   string   // "ok" | "absent" | "two" | "empty" | "badescape" | "wrongtype" | "garbageder"
 	HdrTrailer string  // bytes after the last block (before escaping)
+	BodyOverride []byte // if non-nil, sent as the response body verbatim
 }
 
 type CrlSpec struct {
@@ -501,6 +502,9 @@ func (w *World) response(name string, member []byte, r *RespSpec, hdrKey string,
 	body := build(sigStr)
 	if r.Fetch == "garbage" {
 		body = []byte("<html>service unavailable</html>")
+	}
+	if r.BodyOverride != nil {
+		body = r.BodyOverride
 	}
 	return &Response{Headers: w.issuerHeader(hdrKey, r.HdrRoles, defRoles, r.HdrMode, r.HdrTrailer), Body: body}, signed
 }
